@@ -212,6 +212,8 @@ def plan(tier, seed):
         mj.append(j)
     famM = dict(name='i18n_across_macros', module='checks.hC09', fn='H', jobs=mj, timeout=300, vacuity=1,
                 program_key='label', mutants=[{'name': 'filler_uses_macro_target', 'cfg': mj[0]}])
+    famK = dict(name='translation_function_of_the_call', module='checks.hC14', fn='determinism', jobs=[{'template': 'render-keywords'}],
+                timeout=600, vacuity=1, mutants=[])
     return dict(
         level='translation_validation',
         functions=['chameleon.compiler:Compiler.visit_Translate', 'chameleon.compiler:Compiler.visit_Name',
@@ -228,9 +230,9 @@ def plan(tier, seed):
                 'every argument; bindings decided by the solver; 4 macro programs compared with hand-written METAL-free '
                 'equivalents (a whole template used as macro under i18n settings, a slot filler translating content / attributes keeps the settings of the place where it was '
                 'written, the default slot content uses the macro\'s, the macro body starts from the caller\'s resp. the '
-                'render-time target language). Outside: implicit_i18n_translate, i18n:name under repeat, i18n:ignore/comment/data.'
+                'render-time target language); a template with the encoding option rendered repeatedly with different translate / target_language keywords uses those of each call. Outside: implicit_i18n_translate, i18n:name under repeat, i18n:ignore/comment/data.'
                 % len(jobs)),
         assumptions=['reference i18n semantics in vlib/refsem.py from docs/reference.rst (i18n section) and the property '
                      'statement'],
-        families=[fam, famM],
+        families=[fam, famM, famK],
     )
